@@ -291,7 +291,7 @@ func (o *oracle) flushesOf(stack []wrapCfg) []string {
 // expectTrace: what must have been forwarded for request f, given the oracle's state BEFORE the request.
 func (o *oracle) expectTrace(f []string) []string {
 	num := func(i int) int { n, _ := strconv.Atoi(f[i]); return n }
-	bs := func(i int) []byte { return hx.UnHex(f[i]) }
+	bs := func(i int) []byte { return unhexTok(f[i]) }
 	switch f[0] {
 	case "spy", "wrap", "arm", "disarm":
 		return nil
